@@ -311,10 +311,10 @@ class RunningOrder(MosFile):
         """
         Find the story with *story_id* and return a tuple of (element, index)
         """
-        for i, story in enumerate(self.stories):
-            if story.id == story_id:
-                return (story.xml, i)
-        raise ValueError("Story not found")
+        story, story_index = find_child(parent=self.base_tag, child_tag='story', id=story_id)
+        if story is None:
+            raise ValueError("Story not found")
+        return (story, story_index)
 
     def inspect(self):
         """
